@@ -43,6 +43,26 @@ def gen(rng, tier):
     return cases
 
 
+def gen_word(rng, tier):
+    """one operation on an arbitrary state word (also unreachable ones): conformance of the
+    C bit-field computations with the model's lockNew / tryLegal / tryNew / unlockNew.
+    The full grid of small field values (every branch of every operation, several times)
+    plus random words with large fields."""
+    words = [(wl, rc, wr, ww) for wl in (0, 1) for rc in (0, 1, 2) for wr in (0, 1, 3) for ww in (0, 1, 2)]
+    big = [(1 << 21) - 2, (1 << 20) + 7, 5, 0, 1]
+    for _ in range(n_cases(tier, 8, 200)):
+        # waiting_writers stays below 2^20: values with bit 63 set are logged as signed by the runtime
+        words.append((rng.choice([0, 1]), rng.choice(big), rng.choice(big), rng.choice(big[1:])))
+    cases = []
+    for (wl, rc, wr, ww) in words:
+        blob = wl | (rc << 1) | (wr << 22) | (ww << 43)
+        for op in "rwRWuU":
+            cases.append({"args": [1, "%s:%d" % (op, blob)],
+                          "env": {"VR_SEED": rng.randrange(1, 1 << 30), "VR_SCHED": "rand", "VR_SWITCH": 3,
+                                  "VR_BUDGET": 1500}})
+    return cases
+
+
 def post(log_path, case):
     """extra oracle on the harness's protected datum: a reader saw it change inside its
     critical section / two writers lost an update"""
@@ -67,8 +87,12 @@ SPEC = {
     "C07": {
         "parts": [{"name": "rwlock", "harness": "rwlock", "model": "RwLock", "runtime": True, "gen": gen,
                    "post": post,
-                   "nontrivial": lambda s: (s["hist"].get("xchg RT", 0) + s["hist"].get("xchg WT", 0)) >= 1}],
-        "rule": "cases = (script of 2-6 fibers doing rdlock/wrlock/tryrdlock/trywrlock each followed by the matching unlock, with a yield inside the critical section, 1-3 kernel threads, scheduler kind+seed) from VERIF_SEED; distinct = different (script, sha1 of access sequence); non-trivial = at least one waiter was enqueued on read_waiters or write_waiters",
+                   "nontrivial": lambda s: (s["hist"].get("xchg RT", 0) + s["hist"].get("xchg WT", 0)) >= 1},
+                  # the operation may legitimately wait for ever / pop an empty queue for ever here
+                  {"name": "rwword", "harness": "rwword", "model": "RwWord", "runtime": True, "gen": gen_word,
+                   "ok_status": ("OK", "HANG", "BUDGET"),
+                   "nontrivial": lambda s: s["hist"].get("cas rw", 0) >= 1}],
+        "rule": "part rwword: one operation on a planted arbitrary state word, CAS operands and continuation compared with the model's pure word functions; part rwlock: cases = (script of 2-6 fibers doing rdlock/wrlock/tryrdlock/trywrlock each followed by the matching unlock, with a yield inside the critical section, 1-3 kernel threads, scheduler kind+seed) from VERIF_SEED; distinct = different (script, sha1 of access sequence); non-trivial = at least one waiter was enqueued on read_waiters or write_waiters",
         "trusted_base": [
             "waiter queues kept abstractly (ghost order + linked flags), validated against every logged access; adequacy for all interleavings with one consumer at a time is C15 (Mpsc.pop_is_next_in_order / empty_justified); that the rwlock never runs two consumers on one queue is C07's own theorem single_consumer",
             "scheduler traffic on fiber state words is skipped here and covered by the runtime model (C01/C02); a popped waiter resumes only after its waker called fiber_manager_schedule (checked on every trace via the `woken` ghost)"],
